@@ -1006,14 +1006,30 @@ theorem crop_weakWF (a b : α) (hab : a < b) (m : CropMode) (es : List (Iv α)) 
     WeakWF ((getIvs a b m es).map (shiftIv (rebaseDelta a (getIvs a b m es)))) :=
   shiftIv_weakWF _ _ (getIvs_weakWF a b hab m es h)
 
-theorem crop_rebase_refuses_iff (t : ITier α) (a b : α) (hab : a < b) (m : CropMode) (h : WeakWF t.es) :
-    (t.crop a b m true = .error .TextgridStateError ↔
-      ∃ o ∈ (getIvs a b m t.es).map (shiftIv (rebaseDelta a (getIvs a b m t.es))), ¬ o.s < o.e) ∧
-    ((∃ t', t.crop a b m true = .ok t') ↔
-      StrictIn ((getIvs a b m t.es).map (shiftIv (rebaseDelta a (getIvs a b m t.es))))) := by
+/-- the rebased list of the repaired code: the shifted entries that kept a positive length -/
+theorem rebaseIvs_weakWF (δ : α) (sel : List (Iv α)) (h : WeakWF (sel.map (shiftIv δ))) : WeakWF (rebaseIvs δ sel) := by
+  unfold rebaseIvs
+  exact ⟨fun iv hiv => h.1 iv (List.mem_filter.1 hiv).1, h.2.sublist List.filter_sublist⟩
+
+theorem rebaseIvs_strictIn (δ : α) (sel : List (Iv α)) : StrictIn (rebaseIvs δ sel) := by
+  intro iv hiv
+  have := (List.mem_filter.1 hiv).2
+  simpa using this
+
+/-- what is left out is exactly what collapsed -/
+theorem rebaseIvs_mem (δ : α) (sel : List (Iv α)) (o : Iv α) :
+    o ∈ rebaseIvs δ sel ↔ o ∈ sel.map (shiftIv δ) ∧ o.s < o.e := by
+  unfold rebaseIvs
+  simp [List.mem_filter]
+
+/-- since the repair in /repo, `crop(..., rebaseToZero=True)` never refuses because of rounding -/
+theorem crop_rebase_ok (t : ITier α) (a b : α) (hab : a < b) (m : CropMode) (h : WeakWF t.es) :
+    ∃ t', t.crop a b m true = .ok t' := by
   unfold ITier.crop
   simp only [not_le.2 hab, if_false, if_true]
-  exact mkITier_refuses_iff t.name _ _ _ (crop_weakWF a b hab m t.es h)
+  obtain ⟨t', ht, _⟩ := mkITier_ok_of_strict t.name _ Tm.zero (b - a)
+    (rebaseIvs_weakWF _ _ (crop_weakWF a b hab m t.es h)) (rebaseIvs_strictIn _ _)
+  exact ⟨t', ht⟩
 
 /-- without rebasing no arithmetic is involved: cropping a tier without overlap always succeeds -/
 theorem crop_norebase_ok (t : ITier α) (a b : α) (hab : a < b) (m : CropMode) (h : WeakWF t.es) (hs : StrictIn t.es) :
@@ -1024,27 +1040,22 @@ theorem crop_norebase_ok (t : ITier α) (a b : α) (hab : a < b) (m : CropMode) 
   exact ⟨t', ht⟩
 
 /-- **no overlap from rounding — crop with rebaseToZero**.  For ANY arithmetic satisfying the laws, any window `a < b`,
-any mode and any tier whose entries have positive length and do not overlap: the selected, rebased entry list has no
-overlap and no reversed interval; the call succeeds unless a selected (possibly truncated) piece of positive length
-has collapsed under the subtraction (`e - δ ≤ s - δ` although `s < e`) — then `TextgridStateError`. -/
-theorem no_overlap_from_rounding_crop (t : ITier α) (a b : α) (hab : a < b) (m : CropMode)
-    (h : WeakWF t.es) (hs : StrictIn t.es) :
-    WeakWF ((getIvs a b m t.es).map (shiftIv (rebaseDelta a (getIvs a b m t.es)))) ∧
-    ((∃ t', t.crop a b m true = .ok t') ∨
-     (t.crop a b m true = .error .TextgridStateError ∧
-      ∃ iv ∈ getIvs a b m t.es, iv.s < iv.e ∧
-        iv.e - rebaseDelta a (getIvs a b m t.es) ≤ iv.s - rebaseDelta a (getIvs a b m t.es))) := by
-  refine ⟨crop_weakWF a b hab m t.es h, ?_⟩
-  have hr := crop_rebase_refuses_iff t a b hab m h
-  by_cases hst : StrictIn ((getIvs a b m t.es).map (shiftIv (rebaseDelta a (getIvs a b m t.es))))
-  · exact .inl (hr.2.2 hst)
-  · right
-    have hc : ∃ o ∈ (getIvs a b m t.es).map (shiftIv (rebaseDelta a (getIvs a b m t.es))), ¬ o.s < o.e :=
-      Classical.byContradiction fun hn =>
-        hst (fun x hx => Classical.byContradiction fun h' => hn ⟨x, hx, h'⟩)
-    obtain ⟨x, hx, hxc⟩ := hc
-    obtain ⟨iv, hiv, rfl⟩ := List.mem_map.1 hx
-    exact ⟨hr.1.2 ⟨_, hx, hxc⟩, iv, hiv, getIvs_strictIn a b hab m t.es hs iv hiv, not_lt.1 hxc⟩
+any mode and any tier whose entries do not overlap: the list handed to the constructor has no overlap, no reversed
+and no empty interval, and the call succeeds; a selected (possibly truncated) piece is left out exactly when it
+collapsed under the subtraction (`¬ s - δ < e - δ`) — before the repair that case raised `TextgridStateError`. -/
+theorem no_overlap_from_rounding_crop (t : ITier α) (a b : α) (hab : a < b) (m : CropMode) (h : WeakWF t.es) :
+    WeakWF (rebaseIvs (rebaseDelta a (getIvs a b m t.es)) (getIvs a b m t.es)) ∧
+    StrictIn (rebaseIvs (rebaseDelta a (getIvs a b m t.es)) (getIvs a b m t.es)) ∧
+    (∃ t', t.crop a b m true = .ok t') ∧
+    (∀ iv ∈ getIvs a b m t.es,
+      shiftIv (rebaseDelta a (getIvs a b m t.es)) iv ∈ rebaseIvs (rebaseDelta a (getIvs a b m t.es)) (getIvs a b m t.es) ∨
+      ¬ iv.s - rebaseDelta a (getIvs a b m t.es) < iv.e - rebaseDelta a (getIvs a b m t.es)) := by
+  refine ⟨rebaseIvs_weakWF _ _ (crop_weakWF a b hab m t.es h), rebaseIvs_strictIn _ _, crop_rebase_ok t a b hab m h, ?_⟩
+  intro iv hiv
+  by_cases hc : iv.s - rebaseDelta a (getIvs a b m t.es) < iv.e - rebaseDelta a (getIvs a b m t.es)
+  · left
+    exact (rebaseIvs_mem _ _ _).2 ⟨List.mem_map_of_mem hiv, hc⟩
+  · exact .inr hc
 
 /-! ## (e) point tiers: the times handed to the constructor stay weakly sorted -/
 
